@@ -165,6 +165,8 @@ def replay(ck, em, rec):
         dl = np.asarray(g.log_likelihood(da.from_array(X, chunks=(tuple(rec["comp"]), D))).compute())
     if not same(dl, ll, 1e-13):
         return bad("ChunkEqBatch", "row-chunked Dask array %s scores %s, NumPy batch %s" % (rec["comp"], dl.tolist(), ll.tolist()))
+    if ck.replayed % 3:
+        return _after_dask_histories(ck, em, rec, g, X, exp_terms, exp_ll, ll, lwl, st, scn, bad, same)
     # a score asked of the machine is the score of the mixture it held WHEN ASKED: the lazy Dask results are evaluated
     # only after the machine has been given other parameters through its setters (then the parameters are put back)
     with dask.config.set(scheduler="synchronous"):
@@ -176,11 +178,35 @@ def replay(ck, em, rec):
         g.weights = keep[0][::-1].copy()
         late = (np.asarray(dask.compute(lazy_ll)[0]), np.asarray(dask.compute(lazy_lwl)[0]), float(dask.compute(lazy_st.log_likelihood)[0]))
         g.weights, g.means, g.variances = keep
+    # several lazy results evaluated in ONE graph (two machines on the same samples, one machine on two sample sets,
+    # a likelihood ratio built lazily): every result is still the one of its own machine and samples
+    with dask.config.set(scheduler="synchronous"):
+        other = em.GMMMachine(len(rec["m"]["w"]), weights=np.array(g.weights)[::-1].copy())
+        other.means, other.variances = np.array(g.means) + 1.25, np.array(g.variances) * 1.5
+        Xd = da.from_array(X, chunks=(tuple(rec["comp"]), D))
+        Yd = da.from_array(X[::-1] * 0.5 + 0.25, chunks=(tuple(rec["comp"]), D))
+        ja, jb, jc = dask.compute(g.log_likelihood(Xd), other.log_likelihood(Xd), g.log_likelihood(Yd))
+        ratio = np.asarray((other.log_likelihood(Xd) - g.log_likelihood(Xd)).compute())
+        sa, sb = g.acc_stats(Xd), g.acc_stats(Yd)
+        la, lb = dask.compute(sa.log_likelihood, sb.log_likelihood)
+    eb, ec = np.asarray(other.log_likelihood(X)), np.asarray(g.log_likelihood(X[::-1] * 0.5 + 0.25))
+    if not (same(ja, ll, 1e-12) and same(jb, eb, 1e-12) and same(jc, ec, 1e-12) and same(ratio, eb - ll, 1e-9)
+            and same([float(la)], [float(ll.sum())], 1e-12) and same([float(lb)], [float(ec.sum())], 1e-12)):
+        return bad("ScoreIsOfTheMachineAsked", "Dask scores of two machines / two sample sets computed in one graph: %s / %s / %s, "
+                   "each computed alone %s / %s / %s" % (np.asarray(ja).tolist(), np.asarray(jb).tolist(), np.asarray(jc).tolist(),
+                                                        ll.tolist(), eb.tolist(), ec.tolist()))
     if not (same(late[0], ll, 1e-13) and same(late[1], lwl, 1e-13) and same([late[2]], [float(st.log_likelihood)], 1e-12)):
         return bad("ScoreIsOfTheMachineAsked", "Dask scores requested before the machine's parameters were changed and computed after: "
                    "log_likelihood %s, the machine's answer when asked %s" % (late[0].tolist(), ll.tolist()))
     if not same([float(st.log_likelihood)], [float(sum(lse(row) for row in exp_terms))]):
         return bad("StatsLogLikelihood", "acc_stats(X).log_likelihood %r, expected %r" % (float(st.log_likelihood), float(sum(exp_ll))))
+    return _after_dask_histories(ck, em, rec, g, X, exp_terms, exp_ll, ll, lwl, st, scn, bad, same)
+
+
+def _after_dask_histories(ck, em, rec, g, X, exp_terms, exp_ll, ll, lwl, st, scn, bad, same):
+    import dask
+    import dask.array as da
+    n, D = X.shape
     # ---- the same machine and samples far from the origin (GmmDensity.AffineShift with a = 1: nothing may move)
     for b in (1e6, -3e7):
         g3 = em.GMMMachine(len(rec["m"]["w"]), weights=np.array([float(F(*x)) for x in rec["m"]["w"]]))
